@@ -476,7 +476,7 @@ def map_flow_a(ctx):
                        ctx.path("c20_map"), extra=["-fsanitize=address,undefined", "-fno-sanitize-recover=undefined"])
     cases = []
     r = ctx.tlc_must_pass("MapPure", "MC_MapPure_quick.cfg" if ctx.quick else "MC_MapPure_thorough.cfg", workers=4, timeout=1500)
-    r2 = ctx.tlc_must_pass("MapPure", "MC_MapPure_sim.cfg", workers=1, simulate=4 if ctx.quick else 200, depth=15, timeout=900)
+    r2 = ctx.tlc_must_pass("MapPure", "MC_MapPure_sim.cfg", workers=1, simulate=4 if ctx.quick else 60, depth=15, timeout=900)
     for v in r.vcases + r2.vcases:
         cases.append(json.loads(v))
     if not cases:
@@ -803,7 +803,12 @@ def run(ctx):
             if extra_arrays:
                 rows += extra_arrays
             if not ctx.quick:
-                rows = rows + (vgrows if it["name"].startswith(("corpus:", "err:")) else [vgrows[k % len(vgrows)]])
+                # memcheck costs ~1 s of CPU per run: a third of the rows for the plain corpus and the snippets, one (rotating)
+                # row for every third other input
+                if it["name"].startswith("err:") or (it["name"].startswith("corpus:") and it["name"].count(":") == 1):
+                    rows = rows + vgrows[k % 3::3]
+                elif k % 3 == 0:
+                    rows = rows + [vgrows[(k // 3) % len(vgrows)]]
             elif not it["name"].startswith("own:") and (it["text"].startswith(b"#define f(a) a\n#define t(a) a")
                                                         or k % (3 if it["name"].startswith(("corpus:", "err:")) else 6) == 0):
                 rows = rows + [vgrows[(k // 2) % len(vgrows)]]
@@ -846,7 +851,7 @@ def run(ctx):
             full = tlc_envs(ctx, "MC_Pure_full.cfg", stage2=stage2)
             envs.update(dict(full))
             pick = []
-            for cls, cnt in (("corpus", 2), ("err", 1), ("mut", 1)):
+            for cls, cnt in (("corpus", 1), ("err", 1), ("mut", 1)):
                 cand = [it for it in inputs if it["name"].startswith(cls + ":")]
                 ctx.rng.shuffle(cand)
                 pick += cand[:cnt]
